@@ -106,7 +106,7 @@ def try_checks(d, props):
     wt = worktree(name + "-try", os.path.join(d, "patch.diff"))
     vcopy = os.path.join(SCRATCH, "verif-" + name)
     shutil.rmtree(vcopy, ignore_errors=True)
-    shutil.copytree(VERIF, vcopy, symlinks=True, ignore=shutil.ignore_patterns(".git", "replays", "__pycache__", "seeded"))
+    shutil.copytree(VERIF, vcopy, symlinks=True, ignore=shutil.ignore_patterns(".git", "replays", "__pycache__", "seeded", "tmp", "cases_*", "lem_*"))
     res = {}
     try:
         for p in props:
